@@ -1,8 +1,68 @@
-/- Driver operations of the Slotted model (stub until the model lands). -/
+/-
+  Driver operations of the Slotted model (C19).
+  op "slotted.run": {"steps": [{"cls": {...}, "dict": b, "weakref": b, "creationOk": b, "reentrant": b}, ...]}
+    → {"steps": [{"out": {"created": {...}} | {"err": kind}, "stack": [...]}, ...]}   (guard starts empty)
+  Not part of any theorem; mirrored by harness/props/c19.py.
+-/
 import TypelibModel.Drv.Core
+import TypelibModel.Model.Slotted
 open Lean
 namespace Typelib.Drv
+open Typelib.Slotted
 
-def handleSlotted (_st : St) (_op : String) (_j : Json) : Option (Except String (St × Json)) := none
+def jStrList (j : Json) : Except String (List Str) :=
+  match j with
+  | .arr a => a.toList.mapM jStr
+  | _ => .error s!"not a list of strings: {j}"
+
+def jBool (j : Json) (k : String) : Except String Bool := j.getObjValAs? Bool k
+
+def slottedClsOfJson (j : Json) : Except String Cls := do
+  let str := fun (k : String) => do jStr (← j.getObjVal? k)
+  let baseSlots ← match j.getObjVal? "baseSlots" with
+    | .ok (.arr bs) => bs.toList.mapM jStrList
+    | _ => .error "baseSlots"
+  let ownSlots ← match j.getObjVal? "ownSlots" with
+    | .ok .null => pure none
+    | .ok x => do pure (some (← jStrList x))
+    | .error e => .error e
+  pure { key := (← str "key"), name := (← str "name"), qualname := (← str "qualname"), module := (← str "module"),
+         isDataclass := (← jBool j "isDataclass"),
+         fields := (← jStrList (← j.getObjVal? "fields")),
+         dictKeys := (← jStrList (← j.getObjVal? "dictKeys")),
+         baseSlots := baseSlots,
+         baseHasDict := (← jBool j "baseHasDict"), baseHasWeakref := (← jBool j "baseHasWeakref"),
+         solidDict := (← jBool j "solidDict"), solidWeak := (← jBool j "solidWeak"), solidVar := (← jBool j "solidVar"),
+         frozen := (← jBool j "frozen"), baseUserState := (← jBool j "baseUserState"), ownSlots := ownSlots }
+
+def slottedStepOfJson (j : Json) : Except String Step := do
+  pure { cls := (← slottedClsOfJson (← j.getObjVal? "cls")),
+         flags := { dict := (← jBool j "dict"), weakref := (← jBool j "weakref") },
+         creationOk := (← jBool j "creationOk"), reentrant := (← jBool j "reentrant") }
+
+def strsToJson (xs : List Str) : Json := .arr (xs.map fun s => Json.str (U s)).toArray
+
+def cerrToString : CErr → String
+  | .varsize => "varsize" | .dictSlot => "dictSlot" | .weakrefSlot => "weakrefSlot" | .conflict => "conflict"
+
+def outcomeToJson : Outcome → Json
+  | .created r => Json.mkObj [("created", Json.mkObj [
+      ("slots", strsToJson r.slots), ("dict", strsToJson r.dict), ("name", .str (U r.name)),
+      ("qualname", .str (U r.qualname)), ("module", .str (U r.module)), ("setstateFix", .bool r.setstateFix)])]
+  | .metaclassError => Json.mkObj [("err", .str "metaclass")]
+  | .notDataclass => Json.mkObj [("err", .str "notDataclass")]
+  | .creationError e => Json.mkObj [("err", .str (cerrToString e))]
+  | .envError => Json.mkObj [("err", .str "env")]
+
+def handleSlotted (st : St) (op : String) (j : Json) : Option (Except String (St × Json)) :=
+  match op with
+  | "slotted.run" => some do
+    let steps ← match j.getObjVal? "steps" with
+      | .ok (.arr ss) => ss.toList.mapM slottedStepOfJson
+      | _ => .error "steps"
+    let outs := run [] steps
+    let js := outs.map fun p => Json.mkObj [("out", outcomeToJson p.1), ("stack", strsToJson p.2)]
+    pure (st, Json.mkObj [("steps", .arr js.toArray)])
+  | _ => none
 
 end Typelib.Drv
